@@ -101,6 +101,9 @@ def tpath(rng, hostile=True):
         p = p + rng.choice(["%", "%20x", " (1)", "=x", ":y", "#z", ";w", "é"])
     if rng.random() < 0.05:
         p = "."
+    elif rng.random() < 0.1:
+        # spellings a path normaliser would rewrite: the library records paths verbatim
+        p = rng.choice([p + "/", "./" + p, p.replace("/", "//", 1) if "/" in p else p + "//", p + "/../" + p, p + "/."])
     return p
 
 
@@ -154,13 +157,22 @@ def gen_description(rng, force=None, hostile=True, child_types=None):
     if layered:
         bp = {"name": tvalue(rng, hostile), "short": rng.choice(["RHEL", "F", text.word(rng, 1, 5)]), "version": tversion(rng, hostile)}
     ts = rng.choice([1, 123456, 1386857206, 1417653911, 2 ** 31 - 1, 2 ** 31, 2 ** 32 + 5, 2 ** 53 - 1, -1, -1386857206,
-                     rng.randint(1, 2 ** 40)])
+                     rng.randint(1, 2 ** 40), 2 ** 53 + 1, 1758880000123456789, 2 ** 63 + 12345, -(2 ** 53 + 1)])
     nplat = rng.choice([0, 0, 1, 2, 3])
     if force == "several-platforms":
         nplat = rng.choice([2, 3, 4])
     platforms = rng.sample(PLATFORMS, nplat)
     if rng.random() < 0.5 and arch not in platforms and arch in PLATFORMS:
         platforms.append(arch)
+    legacy_like = None
+    if force == "platform-named-like-legacy-section" or (force is None and rng.random() < 0.05):
+        # platforms are free-form names: 'xen-<tree arch>' next to 'xen' (pre-productmd files spelled the SECTION of platform
+        # 'xen' as [images-xen-<arch>]; in a current file it is a platform of its own)
+        base = rng.choice(["xen", "uboot", "kvm"])
+        legacy_like = "%s-%s" % (base, arch)
+        for pl in (legacy_like, base) if rng.random() < 0.7 else (legacy_like,):
+            if pl not in platforms:
+                platforms.append(pl)
     # variants
     budget = [rng.randint(1, 6)]
     if force in ("depth-3", "child-every-type"):
@@ -254,6 +266,10 @@ def gen_description(rng, force=None, hostile=True, child_types=None):
                 table["KERNEL"] = "images/other"
             if table:
                 images[p] = table
+    if legacy_like is not None:
+        for pl in platforms:
+            if pl == legacy_like or legacy_like.startswith(pl + "-"):
+                images[pl] = {"kernel": "images/%s/vmlinuz" % pl, "initrd": "images/%s/initrd.img" % pl}
     stage2 = {"mainimage": None, "instimage": None}
     if rng.random() < 0.4 or force == "stage2":
         stage2["mainimage"] = rng.choice(["LiveOS/squashfs.img", "images/install.img", tpath(rng, hostile)])
@@ -301,6 +317,8 @@ def classes_of(D):
         out.add("media-ten-or-more")
     if len(D.get("checksums") or {}) >= 10:
         out.add("checksums-ten-or-more")
+    if any(("-" in pl and pl.endswith("-" + D["tree"]["arch"])) for pl in D["images"]):
+        out.add("platform-named-like-legacy-section")
     if len(D["variants"]) > 1:
         out.add("several-top-variants")
     else:
